@@ -114,6 +114,10 @@ pub enum FOp {
     IsEmpty,
     /// a fresh `fields()` iterator advanced from the given ends (then dropped)
     Walk(Vec<End>),
+    /// two `fields()` iterators alive at the same time, advanced alternately (`turns`: false = first,
+    /// true = second), with the shared-reference queries find / fields_len / is_empty made in between
+    /// (what `frame.fields().zip(frame.fields().skip(1))` or a lookup inside a loop over the fields do)
+    Walk2 { a: Vec<End>, b: Vec<End>, turns: Vec<bool>, probe: u16 },
     /// `(&frame).into_iter()` walked forward to the end
     RefIter,
     /// continue on a clone (the original is dropped)
@@ -279,6 +283,36 @@ pub fn check_frame(case: &FrameCase) -> CaseResult {
                 if removed && f && b {
                     both_ends_after_removal = true;
                 }
+            }
+            FOp::Walk2 { a, b, turns, probe } => {
+                let mut models: [VecDeque<&(String, String)>; 2] = [m.live().collect(), m.live().collect()];
+                let mut its = [frame.fields(), frame.fields()];
+                let plans = [a, b];
+                let mut at = [0usize, 0usize];
+                let keys = key_candidates(&case.frame);
+                for (j, second) in turns.iter().chain([false, true, false, true].iter()).enumerate() {
+                    let w = usize::from(*second);
+                    let Some(e) = plans[w].get(at[w]).copied() else { continue };
+                    at[w] += 1;
+                    let (got, want) = (real_step(&mut its[w], e), model_step(&mut models[w], e));
+                    let want = want.map(|(k, v)| (k.as_str(), v.as_str()));
+                    if got != want {
+                        bail!("op {i}: two fields() iterators alive, step {j} of iterator {w} {e:?} = {got:?}, model {want:?}");
+                    }
+                    // queries through the shared reference while both iterators are pending
+                    if !keys.is_empty() && j % 2 == 0 {
+                        let key = &keys[pick_idx(probe.wrapping_add((j as u16).wrapping_mul(7919)), keys.len())];
+                        let want = m.live().find(|(k, _)| k == key).map(|(_, v)| v.as_str());
+                        if frame.find(key) != want {
+                            bail!("op {i}: find({key:?}) while two fields() iterators are pending = {:?}, model {want:?}", frame.find(key));
+                        }
+                    }
+                    if frame.fields_len() != m.live().count() || frame.is_empty() != (m.live().count() == 0 && m.binary.is_none()) {
+                        bail!("op {i}: fields_len() = {} / is_empty() = {} while two fields() iterators are pending, model has {} fields", frame.fields_len(), frame.is_empty(), m.live().count());
+                    }
+                }
+                drop(its);
+                r.class("two_iterators_alive");
             }
             FOp::RefIter => {
                 let got: Vec<(&str, &str)> = (&frame).into_iter().collect();
@@ -574,6 +608,8 @@ fn fop() -> impl Strategy<Value = FOp> {
         2 => Just(FOp::FieldsLen),
         1 => Just(FOp::IsEmpty),
         4 => prop::collection::vec(end(), 0..16usize).prop_map(FOp::Walk),
+        2 => (prop::collection::vec(end(), 0..8usize), prop::collection::vec(end(), 0..8usize), prop::collection::vec(any::<bool>(), 0..16usize), any::<u16>())
+            .prop_map(|(a, b, turns, probe)| FOp::Walk2 { a, b, turns, probe }),
         1 => Just(FOp::RefIter),
         1 => Just(FOp::Clone),
     ]
